@@ -349,6 +349,22 @@ def serde_fields(repo, rel):
             rows.append((name, fname, tc, has_default, skip))
     return rows
 
+def lef_enums(repo):
+    """every `enumstr!` table of lef21/src/data.rs: (enum name, [(variant, string)])"""
+    src = open(os.path.join(repo, "lef21/src/data.rs")).read()
+    tables = []
+    for m in re.finditer(r"enumstr!\(\s*(?:///[^\n]*\n\s*)*(\w+)\s*\{(.*?)\}\s*\);", src, re.S):
+        body = re.sub(r"//[^\n]*", "", m.group(2))
+        items = re.findall(r"(\w+)\s*:\s*\"([^\"]*)\"", body)
+        # everything in the body must be `Variant: "STRING",` items
+        leftover = re.sub(r"(\w+)\s*:\s*\"([^\"]*)\"\s*,?", "", body).strip()
+        if leftover:
+            raise Unrec("enumstr! %s has unrecognised content: %s" % (m.group(1), leftover[:60]))
+        tables.append((m.group(1), items))
+    if not tables:
+        raise Unrec("no enumstr! tables found")
+    return tables
+
 C20_FILES = ["layout21raw/src/gds.rs", "layout21raw/src/proto.rs", "layout21raw/src/lef.rs",
              "layout21raw/src/data.rs", "layout21tetris/src/conv/raw.rs"]
 
@@ -412,6 +428,23 @@ def main():
         report["fallback"].append("serde fields: unrecognised: " + str(e))
     except Exception as e:
         report["fallback"].append("serde fields: translator error: %r" % (e,))
+    try:
+        tables = lef_enums(repo)
+        out = ["-- GENERATED by /verif/tools/translate.py: every `enumstr!` table of lef21/src/data.rs — do not edit.",
+               "namespace L21.Gen", "", "/-- (enum, [(variant, LEF string)]) -/",
+               "def lefEnums : List (String × List (String × String)) := [\n  " +
+               ",\n  ".join('("%s", [%s])' % (n, ", ".join('("%s", "%s")' % it for it in items)) for n, items in tables) + "]",
+               "", "end L21.Gen"]
+        text = "\n".join(out) + "\n"
+        path = os.path.join(outdir, "LefEnums.lean")
+        old = open(path).read() if os.path.exists(path) else None
+        if old != text:
+            open(path, "w").write(text)
+        report["constructs"]["lef_enums"] = "extracted (%d tables, %d strings)" % (len(tables), sum(len(i) for _, i in tables))
+    except Unrec as e:
+        report["fallback"].append("lef enums: unrecognised: " + str(e))
+    except Exception as e:
+        report["fallback"].append("lef enums: translator error: %r" % (e,))
     try:
         sites = hash_iter_sites(repo)
         text = ("-- GENERATED by /verif/tools/translate.py: hash-container iteration sites in the conversion code — do not edit.\n"
